@@ -33,6 +33,12 @@ VARS["p_dated"] = ("person", "float", "month", False)
 VARS["h_f_nb"] = ("household", "int", "month", False)
 VARS["h_f_sum"] = ("household", "float", "month", False)
 VARS["h_f_par"] = ("household", "float", "month", False)
+VARS["p_spiral"] = ("person", "int", "month", False)      # reads itself one month earlier: depends on max_spiral_loops
+EXT_VARS = {"p_ext": ("person", "int", "month", False)}   # added by the extension package ofverif.apiext
+# non-default default values (household inputs); person inputs keep the defaults of their types
+DEFAULTS = {"h_int": 7, "h_float": 1.5, "h_bool": True, "h_str": "dflt", "h_strn": "dfl", "h_date": "2000-01-02", "h_enum": "owner"}
+REFORM = "ofverif.apireform.OfvReform"       # p_f_int = 3 * p_int + 1 instead of 2 * p_int + 1
+EXTENSION = "ofverif.apiext"
 BOUNDED = {"p_strn", "h_strn", "p_f_strn", "h_f_strn"}     # str variables with max_length
 
 PLURAL = {"person": "persons", "household": "households"}
@@ -46,25 +52,42 @@ PARAM_DATA = {
             {"threshold": {"2010-01-01": {"value": 0}}, "rate": {"2010-01-01": {"value": 0.125}, "2016-01-01": {"value": 0.25}}},
             {"threshold": {"2010-01-01": {"value": 1000}, "2018-01-01": {"value": 2000}}, "rate": {"2010-01-01": {"value": 0.5}}},
         ]},
-        "sub": {"deep": {"values": {"2011-01-01": {"value": 7}}}},
+        "sub": {"description": "a node", "documentation": "  node documentation  ", "metadata": {"unit": "currency"},
+                "deep": {"values": {"2011-01-01": {"value": 7}, "2014-01-01": {"expected": 8}, "2016-01-01": "expected"},
+                         "documentation": " deep doc ", "metadata": {"unit": "/1", "reference": "https://example.org/deep"}}},
+        "stopped": {"brackets": [
+            {"threshold": {"2010-01-01": {"value": 0}, "2016-01-01": {"value": None}},
+             "amount": {"2010-01-01": {"value": 10}, "2013-01-01": {"value": 12}, "2016-01-01": {"value": None}}},
+            {"threshold": {"2012-06-01": {"value": 500}, "2016-01-01": {"value": None}},
+             "amount": {"2012-06-01": {"value": 20}, "2016-01-01": {"value": None}}},
+        ]},
     },
 }
 
 
 @functools.lru_cache(maxsize=None)
-def system(param_seed: int | None = None):
-    """The real tax-benefit system (built once per process)."""
+def entities_():
+    from openfisca_core import entities
+    person = entities.Entity("person", "persons", "A person", "  Documentation of a person.  ")
+    household = entities.GroupEntity("household", "households", "A household", "Documentation of a household.", roles=[
+        {"key": "adult", "plural": "adults", "doc": "the adults", "max": 2}, {"key": "child", "plural": "children"}])
+    return person, household
+
+
+@functools.lru_cache(maxsize=None)
+def system(param_seed: int | None = None, variant: str = ""):
+    """The real tax-benefit system (built once per process). `variant` ("", "reform", "ext",
+    "reform+ext") builds DIRECTLY the system a YAML test designates with `reforms:` / `extensions:`
+    (without Reform / load_extension): the independent engine run uses it."""
     import logging
     logging.disable(logging.CRITICAL)
     import numpy as np
-    from openfisca_core import entities, populations, taxbenefitsystems, variables
+    from openfisca_core import populations, taxbenefitsystems, variables
     from openfisca_core.indexed_enums import Enum
     from openfisca_core.parameters import ParameterNode
     from openfisca_core.periods import DateUnit as U
 
-    person = entities.Entity("person", "persons", "", "")
-    household = entities.GroupEntity("household", "households", "", "", roles=[
-        {"key": "adult", "plural": "adults"}, {"key": "child", "plural": "children"}])
+    person, household = entities_()
     ents = {"person": person, "household": household}
 
     class Occ(Enum):
@@ -78,7 +101,8 @@ def system(param_seed: int | None = None):
     D1, D2 = np.datetime64("2001-02-03"), np.datetime64("1999-12-31")
 
     def f_int(pre):
-        return lambda pop, period: pop(f"{pre}_int", period) * 2 + 1
+        k = 3 if "reform" in variant and pre == "p" else 2
+        return lambda pop, period: pop(f"{pre}_int", period) * k + 1
 
     def f_float(pre):
         return lambda pop, period: pop(f"{pre}_float", period) * 0.5 + pop(f"{pre}_int", period)
@@ -109,6 +133,12 @@ def system(param_seed: int | None = None):
         if vt == "enum":
             attrs["possible_values"] = Occ
             attrs["default_value"] = Occ.tenant
+        if name in DEFAULTS:
+            d = DEFAULTS[name]
+            attrs["default_value"] = Occ[d] if vt == "enum" else (datetime.date.fromisoformat(d) if vt == "date" else d)
+        if name.endswith("_f_float"):
+            attrs["documentation"] = f"  Documentation of {name}.\n  Second line.  "
+            attrs["reference"] = [f"https://example.org/{name}", "https://example.org/law"]
         if name in BOUNDED:
             attrs["max_length"] = MAXLEN
         if vt in ("int", "float") and is_input and dp in ("month", "year"):
@@ -120,6 +150,15 @@ def system(param_seed: int | None = None):
         classes.append(type(name, (variables.Variable,), attrs))
 
     by_name = {c.__name__: c for c in classes}
+    by_name["p_f_float"].formula.__doc__ = "Half the float input plus the integer input."
+
+    def spiral(pop, period):
+        return pop("p_spiral", period.last_month) + 1
+    by_name["p_spiral"].formula = spiral
+    if "ext" in variant:
+        classes.append(type("p_ext", (variables.Variable,), {
+            "value_type": int, "entity": person, "definition_period": U.MONTH, "label": "label of p_ext",
+            "formula": lambda pop, period: pop("p_int", period) + 100}))
 
     def y_sum(pop, period):
         return pop("p_float", period, options=[populations.ADD]) + pop("p_y_float", period)
@@ -185,36 +224,64 @@ def dated_variables(seed: int) -> dict:
 
 
 def random_param_tree(seed: int) -> dict:
-    """A generated parameter tree (values with nulls; scales WITHOUT interior null thresholds)."""
+    """A generated parameter tree: values with nulls, `expected` placeholders, documentation and
+    metadata; rate and amount scales whose later brackets may start later and which may be stopped
+    (every bracket at the same date), WITHOUT interior null thresholds."""
     import random
     rng = random.Random(seed)
     dates = ["2009-12-31", "2010-01-01", "2012-06-01", "2012-06-02", "2015-01-01", "2017-03-15", "2020-01-01", "2020-02-29"]
 
     def hist(gen, allow_null=True, lo=1):
         ds = rng.sample(dates, rng.randint(lo, 5))
-        return {d: {"value": (None if allow_null and rng.random() < 0.2 else gen())} for d in ds}
+        out = {}
+        for k, d in enumerate(ds):
+            r = rng.random()
+            if k and r < 0.12:
+                out[d] = rng.choice(["expected", {"expected": gen()}])
+            else:
+                out[d] = {"value": (None if allow_null and r < 0.3 else gen())}
+        return out
+
+    def meta(node):
+        if rng.random() < 0.5:
+            node["description"] = f"description {rng.randint(0, 99)}"
+        if rng.random() < 0.4:
+            node["documentation"] = f"  documentation {rng.randint(0, 99)}\n  second line  "
+        if rng.random() < 0.5:
+            node["metadata"] = {k: v for k, v in (("unit", rng.choice(["/1", "currency", "year"])),
+                                                  ("reference", rng.choice(["https://example.org/ref", ["r1", "r2"]])))
+                                if rng.random() < 0.7}
+        return node
 
     t: dict = {}
     for i in range(5):
         kind = rng.choice(["int", "lat", "bool"])
         gen = {"int": lambda: rng.randint(-5, 99), "lat": lambda: rng.randint(-16, 64) / 8, "bool": lambda: rng.random() < 0.5}[kind]
-        t[f"p{i}"] = {"description": f"parameter {i}", "values": hist(gen)}
+        t[f"p{i}"] = meta({"values": hist(gen)})
     for i in range(3):
         kind = rng.choice(["rate", "amount"])
         start = rng.choice(dates[:3])
+        later = sorted(rng.sample(dates[3:7], 2))
+        stop = dates[7] if rng.random() < 0.35 else None
         br = []
         for b in range(rng.randint(1, 4)):
-            th = {start: {"value": b * 100 + rng.choice([0, 0, 50]) if b else 0}}
-            for d in rng.sample(dates[3:], rng.randint(0, 2)):
-                th[d] = {"value": b * 100 + rng.choice([0, 25, 75]) if b else 0}
-            vals = {start: {"value": rng.randint(1, 7) / 8 if kind == "rate" else rng.randint(1, 50)}}
-            for d in rng.sample(dates[3:], rng.randint(0, 2)):
-                vals[d] = {"value": rng.randint(1, 7) / 8 if kind == "rate" else rng.randint(1, 50)}
+            b_start = start if b == 0 or rng.random() < 0.6 else later[0]      # a bracket introduced later
+            th = {b_start: {"value": b * 100 + rng.choice([0, 0, 50]) if b else 0}}
+            for d in rng.sample(later, rng.randint(0, 2)):
+                if d > b_start:
+                    th[d] = {"value": b * 100 + rng.choice([0, 25, 75]) if b else 0}
+            vals = {b_start: {"value": rng.randint(1, 7) / 8 if kind == "rate" else rng.randint(1, 50)}}
+            for d in rng.sample(later, rng.randint(0, 2)):
+                if d > b_start:
+                    vals[d] = {"value": rng.randint(1, 7) / 8 if kind == "rate" else rng.randint(1, 50)}
+            if stop:
+                th[stop] = {"value": None}
+                vals[stop] = {"value": None}
             br.append({"threshold": th, kind: vals})
-        t[f"s{i}"] = {"brackets": br}
+        t[f"s{i}"] = meta({"brackets": br})
     return {"taxes": {"rate": PARAM_DATA["taxes"]["rate"], "amount": PARAM_DATA["taxes"]["amount"], **t,
-                      "node": {"inner": {"values": hist(lambda: rng.randint(0, 9))},
-                               "more": {"leaf": {"values": hist(lambda: rng.randint(0, 9), allow_null=False)}}}}}
+                      "node": meta({"inner": {"values": hist(lambda: rng.randint(0, 9))},
+                                    "more": meta({"leaf": meta({"values": hist(lambda: rng.randint(0, 9), allow_null=False)})})})}}
 
 
 @functools.lru_cache(maxsize=None)
@@ -240,9 +307,9 @@ def post(cl, route: str, doc):
 # independent engine run
 
 
-def vtype(name: str):
+def vtype(name: str, variant: str = ""):
     """value type token of a variable of the system, None if there is no such variable"""
-    v = VARS.get(name)
+    v = VARS.get(name) or (EXT_VARS.get(name) if "ext" in variant else None)
     return v[1] if v else None
 
 
@@ -264,26 +331,28 @@ def val_token(vt: str, x, tbs=None) -> str:
     return "s" + hx(str(x))
 
 
-def engine_run(doc, requests):
+def engine_run(doc, requests, variant: str = "", max_spiral_loops=None):
     """Direct `Simulation.calculate` on the situation `doc` (a deep copy is built) for each
     (variable, period text) of `requests`.
     -> (accepted: bool, ids: {plural: [ids]}, vecs: {(var, per): ("ok", [tokens], canon) | ("err",)})"""
     import copy
     from openfisca_core import periods
     from openfisca_core.simulations import SimulationBuilder
-    tbs = system()
+    tbs = system(None, variant)
     try:
         sim = SimulationBuilder().build_from_entities(tbs, copy.deepcopy(doc))
     except Exception:
         return False, {}, {}
     if sim is None:
         return False, {}, {}
+    if max_spiral_loops:
+        sim.max_spiral_loops = max_spiral_loops
     ids = {pop.entity.plural: [str(i) for i in pop.ids] for pop in sim.populations.values()}
     vecs = {}
     for var, per in requests:
         if (var, per) in vecs:
             continue
-        vt = vtype(var)
+        vt = vtype(var, variant)
         try:
             arr = sim.calculate(var, per)
             canon = str(periods.period(per))
@@ -409,7 +478,7 @@ def pytest_runtest_logreport(report):
 '''
 
 
-def run_yaml_tests(tbs, yaml_text: str, tag: str):
+def run_yaml_tests(tbs, yaml_text: str, tag: str, options=None):
     """Write one YAML file under /var/tmp, run it through `run_tests`, return
     (exit status, [per-test outcome dicts]); the directory is removed afterwards.
     Per-test outcomes come from a conftest.py placed beside the file (pytest loads it as a local
@@ -432,7 +501,7 @@ def run_yaml_tests(tbs, yaml_text: str, tag: str):
         buf = io.StringIO()
         try:
             with contextlib.redirect_stdout(buf), contextlib.redirect_stderr(buf):
-                status = int(run_tests(tbs, path))
+                status = int(run_tests(tbs, path, options) if options else run_tests(tbs, path))
         finally:
             if old is None:
                 os.environ.pop("PYTEST_ADDOPTS", None)
